@@ -526,11 +526,11 @@ def _rank_regex(db, chk, tf, tm, ta):
     f = tf.func("create_rank_to_trace_dict")
     pats = [lit(c.args[0]) for c in H.compiled_patterns(tf, [f]) if c.args]
     ok = pats == ['"rank":\\s+(\\d+)']
-    chk.ob(rule, "rank discovery reads the number following '\"rank\":' and at least one whitespace", ok, tf.loc(f), found=pats, accepted=['"rank":\\s+(\\d+)'])
+    _ob_absent(chk, rule, "rank discovery reads the number following '\"rank\":' and at least one whitespace", ok, tf.loc(f), found=pats, accepted=['"rank":\\s+(\\d+)'])
     reads = [c for c in ast.walk(f) if isinstance(c, ast.Call) and isinstance(c.func, ast.Attribute) and c.func.attr in ("read", "readline", "readlines") and (c.args or c.keywords)]
     line_loops = [n for n in ast.walk(f) if isinstance(n, ast.For) and isinstance(n.iter, ast.Name) and any(isinstance(c, ast.Call) and isinstance(c.func, ast.Attribute) and c.func.attr == "search" for c in ast.walk(n))]
     whole = [c for c in ast.walk(f) if isinstance(c, ast.Call) and isinstance(c.func, ast.Attribute) and c.func.attr == "read" and not c.args and not c.keywords]
-    chk.ob(rule, "rank discovery searches the WHOLE file (line by line or a full read), not a bounded prefix", (bool(line_loops) or bool(whole)) and not reads, tf.loc(f),
+    chk.ob(rule, "rank discovery searches the WHOLE file (line by line or a full read), not a bounded prefix", ((bool(line_loops) or bool(whole)) and not reads) if (line_loops or whole or reads) else None, tf.loc(f),
            found={"bounded reads": [ast.unparse(c) for c in reads], "line loops": len(line_loops)}, accepted="for line in f: ... rank_re.search(line)",
            why="the rank field written by update_trace_rank / found after a large traceEvents array lies beyond any fixed prefix: the file silently falls back to rank 0")
     needs_space = bool(pats) and "\\s+" in pats[0]
